@@ -17,6 +17,8 @@ func C02(c *Ctx) int {
 		Job: JobOpts{Perturb: 9, HoldPoints: []string{"process.start.triggered", "process.monitor.started", "process.monitor.cease", "process.wait.locked", "flow.start", "flow.flowtrace", "tracer.take", "tracer.subscribe"}}}); err != nil {
 		c.Infraf("%v", err)
 	}
+	// level M: StartAll / monitor / wait-group / completion lock / waiters over every interleaving
+	c.EngineRound(ps, EngineOpts{Label: "completion", MaxFlows: 6, NWaiters: 2, RunsPer: 3})
 	c.Extra["programs"] = len(ps)
 	return c.Finish("model_checking", "processes with 1..3 start events, instant completion, parallel tokens, a legitimately stuck instance; TLC enumerates answer orders interleaved with up to 3 completion waits (1..3 concurrent waiters; short time-outs before completion, i.e. waits that end by context expiry, then a long one after it); replayed on the real engine with schedule perturbation; TokenGameTrace decides every wait result, the cease trace and the final wait", false, fs)
 }
